@@ -709,3 +709,15 @@ def c04_pty_monitor(hdr, marks, data):
                 return ("after '%s' the row of the running bar %s has been pushed into the scrollback (terminal %dx%d, %s bars)"
                         % (label, t, rows, cols, hdr[4]), "pty-row-in-scrollback")
     return None
+
+
+def c07_frames_monitor(case, frames):
+    """rows written by a container never exceed the width it was given, whatever happened to the bar before
+    (clipped by the height for a while, re-prioritised, popped, promoted)"""
+    width = int(case["cfg"][4])
+    for seq, cuu, items in frames:
+        for it in items:
+            if it[0] == "r" and it[-1].startswith("w") and it[-1][1:].isdigit() and int(it[-1][1:]) > width:
+                return ("the row of bar %s in the frame written at event %d is %s columns wide on a container of width %d"
+                        % (it[1], seq, it[-1][1:], width), "container-row-wider-than-width")
+    return None
